@@ -197,7 +197,11 @@ static struct iv_wait_interest v_J;	/* another interest of the same thread */
 static _Bool g_I_freed;
 
 int iv_event_register(struct iv_event *e) { g_ev_reg++; return 0; }
-void iv_event_unregister(struct iv_event *e) { g_ev_unreg++; }
+void iv_event_unregister(struct iv_event *e)
+{
+	g_ev_unreg++;
+	__CPROVER_assert(e != &v_I.ev || !g_in_tree, "[C11,C01] the interest has left the pid set (under the wait lock) before its event is torn down: from then on no reaper, in whichever thread, can find it and post a status to it");
+}
 int iv_signal_register(struct iv_signal *s) { g_sig_reg++; return 0; }
 void iv_signal_unregister(struct iv_signal *s) { g_sig_unreg++; }
 void iv_signal_child_reset_postfork(void) { g_postfork++; }
@@ -339,7 +343,7 @@ void h_wait_register_spawn(void)
 	} else {
 		__CPROVER_assert(r == 0 && v_I.pid == verif_in.kill_ret && g_in_tree, "[C11,C19] the new child's pid is in the pid set before the lock is released: it cannot be missed however quickly it exits");
 		__CPROVER_assert(g_child_fn_calls == 0, "[C11] the child function runs in the child only");
-		__CPROVER_assert(v_I.flags == 0 && iv_list_empty(&v_I.events_pending), "[C19,C11] a spawned interest starts out not dead with nothing queued, whatever the record held before (iv_popen re-uses freed memory): a later kill request reaches the running child");
+		__CPROVER_assert(v_I.flags == 0 && iv_list_empty(&v_I.events_pending), "[C19,C11,C01] a spawned interest starts out not dead with nothing queued, whatever the record held before (iv_popen re-uses freed memory): a later kill request reaches the running child");
 	}
 	__CPROVER_assert(!g_lock_held, "[C11] lock released on every path");
 	CANARY();
